@@ -50,13 +50,16 @@ Section C01.
   Proof. exact history_irrelevant. Qed.
 
   (** the contracts assumed above hold for every world made of the modelled area features *)
-  Theorem C01_premises_met : forall g sph (afs : list (@area_feature F)) cs Tp Ts al cp force grav cross,
+  Theorem C01_premises_met : forall g tape sph (afs : list (@area_feature F)) cs Tp Ts al cp force grav cross,
+    Forall area_nonrandom afs ->
     let w := {| w_cs := cs; w_Tp := Tp; w_Ts := Ts; w_alpha := al; w_cp := cp; w_force := force;
-                w_gravity := grav; w_cross := cross; w_features := map (area_to_feature g sph) afs |} in
+                w_gravity := grav; w_cross := cross; w_features := map (area_to_feature g tape sph) afs |} in
     world_ok w /\ world_no_random w.
   Proof.
-    intros. split; unfold world_ok, world_no_random; cbn [w_features w]; apply Forall_forall; intros f Hf;
-      apply in_map_iff in Hf; destruct Hf as (a & <- & _); [apply area_paint_len | apply area_no_random].
+    intros g tape sph afs cs Tp Ts al cp force grav cross NR w.
+    split; unfold world_ok, world_no_random; cbn [w_features w]; apply Forall_forall; intros f Hf;
+      apply in_map_iff in Hf; destruct Hf as (a & <- & Ha); [apply area_paint_len | apply area_no_random].
+    rewrite Forall_forall in NR. apply NR, Ha.
   Qed.
 End C01.
 
